@@ -530,6 +530,14 @@ fn gen_node(rng: &mut Rng, out: &mut String, depth: usize) {
         0..=8 => {
             let tag = *rng.pick(TAGS);
             gen_start_tag(rng, tag, out);
+            if matches!(tag, "pre" | "listing" | "textarea") && rng.chance(1, 2) {
+                // "a line feed right after the start tag is dropped": the line feed in every
+                // spelling, and what may sit between the tag and it
+                out.push_str(rng.pick_str(&[
+                    "\n", "\r\n", "\r", "&#10;", "&#10", "&#xA;", "&#xa", "&#010", "&NewLine;", "&#13;", "&#13;\n", "\n\n", "<!---->\n", "\0\n", "&#10x", "&#xAz",
+                    "&\n", " \n", "\u{feff}\n", "&amp\n",
+                ]));
+            }
             if RAW_TAGS.contains(&tag) {
                 gen_raw_body(rng, tag, out);
                 if rng.chance(7, 8) {
@@ -767,7 +775,7 @@ pub fn gen_select_scenario(rng: &mut Rng, out: &mut String) {
             3..=6 => {
                 out.push_str(rng.pick_str(&["<option selected>", "<option selected>", "<option>", "<option selected=a id=o>"]));
                 for _ in 0..rng.small(3) {
-                    out.push_str(rng.pick_str(&["a", "b c", "<b>x</b>", "<i>", "<selectedcontent></selectedcontent>", "<selectedcontent>in</selectedcontent>", "<!--c-->", "&amp;", "<div>d</div>", "<svg><g/></svg>"]));
+                    out.push_str(rng.pick_str(&["a", "b c", "<b>x</b>", "<i>", "<selectedcontent></selectedcontent>", "<selectedcontent>in</selectedcontent>", "<!--c-->", "&amp;", "<div>d</div>", "<svg><g/></svg>", "<template>t</template>", "<div><template><b>x</b></template></div>"]));
                 }
                 out.push_str(rng.pick_str(&["</option>", "</option>", "</option>", ""]));
             },
